@@ -37,7 +37,7 @@ THOROUGH_RUNS = 200_000
 EXPECT_PROBES = ["msg_aged_exactly_max", "msg_aged_max_plus_1us", "silence_exactly_max_age", "silence_max_minus_1us",
                  "failure_at_block_end", "backoff_doubled", "backoff_hit_max", "reset_on_success", "reset_after_not_working",
                  "timer_and_msg_same_instant", "pool_variant", "failure_while_not_working", "results_back_to_back",
-                 "messages_stamped_in_other_utc_offset"]
+                 "messages_stamped_in_other_utc_offset", "failing_streak_of_50"]
 
 BAD_KINDS = ["bad_state", "bad_relay", "critical_error", "nan_capacity", "stale_1us", "stale_1s"]
 NW, UN, WK = "NOT_WORKING", "UNCERTAIN", "WORKING"
@@ -421,6 +421,31 @@ def scenario(sim: Sim) -> None:
                         # events pile up behind a stall: the order in which the tracker sees a failure relative
                         # to its own status changes is no longer known to the harness
                         ob.blk_ambiguous = True
+        if exact and ch.chance("long_failing_streak", 0.05):
+            # a long run: every command to one battery fails, each result arriving right after the previous blocking
+            # period ended, dozens of times in a row, while its data stays healthy (fed well inside the maximum age)
+            sim.probe("failing_streak_of_50")
+            b = bats[0]
+            feed_every = max(1000, max_age_us // 3)
+            for _i in range(ch.int_between("streak_len", 50, 62)):
+                target = b.blk_until + 1 if b.blk_until is not None and b.blk_until >= sim.now_us else sim.now_us + 3
+                while True:
+                    for ob in bats:
+                        for s_ in ("bat", "inv"):
+                            await _until(sim, sim.now_us + 3)
+                            deliver(ob, s_, "healthy")
+                    if sim.now_us + feed_every >= target:
+                        break
+                    await _until(sim, sim.now_us + feed_every)
+                await _until(sim, max(target, sim.now_us + 3))
+                sim.fault("set_power_failed")
+                sim.ev("result", "failed", b.bid)
+                sim.note(f"set_power result for {b.bid}: failed (streak)")
+                on_result(b, "failed")
+                if pool:
+                    sim.spawn(ptracker.update_status(set(), {b.bid}))
+                else:
+                    sim.spawn(result_tx.send(SetPowerResult(succeeded=set(), failed={b.bid})))
         await asyncio.sleep(0.01)
         sim.loop.idle_hooks.remove(on_idle)
         if pool:
